@@ -118,6 +118,9 @@ const NAMES: &[&str] = &[
     "tcp_accept", "tcp_try_accept_none",
     "spawn_inherit", "spawn_pipes", "spawn_null", "spawn_rawfd", "spawn_rawfd_same", "spawn_missing_bin",
     "epoll", "getpwuid_r", "getpwuid_r_refill", "openpty", "openpty_termios", "io_uring_setup",
+    // operations on values the caller keeps: nothing may be closed, nothing may stay behind
+    "unix_stream_io", "tcp_stream_io", "tcp_read_timeout_expires", "file_io", "dir_iterate", "epoll_existing",
+    "unix_accept_timeout", "unix_accept_timeout_expires", "tcp_accept_timeout", "tcp_connect_timeout", "child_wait",
 ];
 
 #[allow(clippy::too_many_lines)]
@@ -447,6 +450,141 @@ fn setup(name: &str, root: &Path) -> Scen {
             let r = rusl::io_uring::setup_io_uring(8, rusl::platform::IoUringParamFlags::empty(), 0, 0);
             Ret::from(r, |u| (vec![u.fd.value()], true))
         }),
+
+        // ---------------------------------------------------------------- operations on kept values
+        "unix_stream_io" => {
+            let path = root.join("io.sock");
+            let srv = std::os::unix::net::UnixListener::bind(&path).unwrap();
+            let mut c = UnixStream::connect(leak_us(&path)).unwrap();
+            let (mut peer, _) = srv.accept().unwrap();
+            std::io::Write::write_all(&mut peer, b"pong").unwrap();
+            scen_bg((srv, peer), move || {
+                use tiny_std::io::{Read, Write};
+                let mut b = [0u8; 4];
+                let r = c.write(b"ping").and_then(|_| c.read(&mut b));
+                let ret = Ret::unit(r);
+                std::mem::forget(c); // the stream stays with the caller
+                ret
+            })
+        }
+        "tcp_stream_io" | "tcp_read_timeout_expires" => {
+            let srv = std::net::TcpListener::bind("127.0.0.1:0").unwrap();
+            let port = srv.local_addr().unwrap().port();
+            let mut c = TcpStream::connect(&SocketAddress::new(Ip::V4([127, 0, 0, 1]), port)).unwrap();
+            let (mut peer, _) = srv.accept().unwrap();
+            let expires = name == "tcp_read_timeout_expires";
+            if !expires {
+                std::io::Write::write_all(&mut peer, b"pong").unwrap();
+            }
+            scen_bg((srv, peer), move || {
+                use tiny_std::io::{Read, Write};
+                let mut b = [0u8; 4];
+                let r = if expires {
+                    c.read_with_timeout(&mut b, core::time::Duration::from_millis(30))
+                } else {
+                    c.write(b"ping").and_then(|_| c.read(&mut b))
+                };
+                let ret = Ret::unit(r);
+                std::mem::forget(c);
+                ret
+            })
+        }
+        "file_io" => {
+            let p = leak_us(&root.join("io.txt"));
+            let mut f = OpenOptions::new().create(true).read(true).write(true).open(p).unwrap();
+            scen(move || {
+                use tiny_std::io::{Read, Write};
+                let mut b = [0u8; 8];
+                let r = f.write(b"12345678").and_then(|_| f.metadata().map(|_| 0)).and_then(|_| f.set_nonblocking().map(|()| 0)).and_then(|_| f.read(&mut b));
+                let ret = Ret::unit(r);
+                std::mem::forget(f);
+                ret
+            })
+        }
+        "dir_iterate" => {
+            std::fs::create_dir_all(root.join("it/sub")).unwrap();
+            for i in 0..40 {
+                std::fs::write(root.join(format!("it/file-with-a-rather-long-name-{i:03}")), b"x").unwrap();
+            }
+            let d = Directory::open(leak_us(&root.join("it"))).unwrap();
+            scen(move || {
+                let mut n = 0;
+                for e in d.read() {
+                    match e {
+                        Ok(_) => n += 1,
+                        Err(e) => {
+                            std::mem::forget(d);
+                            return Ret::err(e);
+                        }
+                    }
+                }
+                std::mem::forget(d);
+                Ret::unit(if n >= 41 { Ok(()) } else { Err("short listing") })
+            })
+        }
+        "epoll_existing" => {
+            let (a, b) = std::os::unix::net::UnixStream::pair().unwrap();
+            let raw = rusl::platform::Fd::try_new(a.as_raw_fd()).unwrap();
+            let d = EpollDriver::create(true).unwrap();
+            scen_bg((a, b), move || {
+                let mut ev = [tiny_std::linux::epoll::EpollEvent::new(0, EpollEventMask::EPOLLIN); 2];
+                let r = d
+                    .register(raw, 7, EpollEventMask::EPOLLIN)
+                    .and_then(|()| d.modify(raw, 8, EpollEventMask::EPOLLOUT))
+                    .and_then(|()| d.wait(&mut ev, EpollTimeout::WaitMillis(5)))
+                    .and_then(|_| d.unregister(raw));
+                std::mem::forget(d);
+                Ret::unit(r)
+            })
+        }
+        "unix_accept_timeout" | "unix_accept_timeout_expires" => {
+            let path = root.join("acct.sock");
+            let mut l = UnixListener::bind(leak_us(&path)).unwrap();
+            let client = if name == "unix_accept_timeout" { Some(std::os::unix::net::UnixStream::connect(&path).unwrap()) } else { None };
+            scen_bg(client, move || {
+                let r = l.accept_with_timeout(core::time::Duration::from_millis(30));
+                let ret = Ret::from(r, |s| (vec![s.as_raw_fd().value()], true));
+                std::mem::forget(l);
+                ret
+            })
+        }
+        "tcp_accept_timeout" => {
+            let mut l = TcpListener::bind(&SocketAddress::new(Ip::V4([127, 0, 0, 1]), 0)).unwrap();
+            let port = match l.local_addr().unwrap() {
+                a => format!("{a:?}").rsplit("port: ").next().unwrap().trim_end_matches([' ', '}']).parse::<u16>().unwrap(),
+            };
+            let client = std::net::TcpStream::connect(("127.0.0.1", port)).unwrap();
+            scen_bg(client, move || {
+                let r = l.accept_with_timeout(core::time::Duration::from_millis(200));
+                let ret = Ret::from(r, |s| (vec![s.as_raw_fd().value()], true));
+                std::mem::forget(l);
+                ret
+            })
+        }
+        "tcp_connect_timeout" => {
+            let bg = std::net::TcpListener::bind("127.0.0.1:0").unwrap();
+            let port = bg.local_addr().unwrap().port();
+            let addr = SocketAddress::new(Ip::V4([127, 0, 0, 1]), port);
+            scen_bg(bg, move || {
+                Ret::from(TcpStream::connect_with_timeout(&addr, core::time::Duration::from_millis(200)), |s| (vec![s.as_raw_fd().value()], true))
+            })
+        }
+        "child_wait" => {
+            let mut c = Command::new(lit("/bin/true")).unwrap();
+            c.env(UnixString::try_from_str("A=1").unwrap());
+            c.stdin(Stdio::MakePipe).stdout(Stdio::MakePipe);
+            let mut child = c.spawn().unwrap();
+            // wait() is documented to close the child's stdin first: that pipe end passes to the operation
+            let stdin_fd = child.stdin.as_ref().unwrap().borrow_fd().as_raw_fd().value();
+            let mut s = scen(move || {
+                let r = child.wait();
+                let ret = Ret::unit(r);
+                std::mem::forget(child); // stdout pipe stays with the caller
+                ret
+            });
+            s.owned = vec![stdin_fd];
+            s
+        }
         _ => {
             eprintln!("unknown scenario {name}");
             std::process::exit(2);
